@@ -139,10 +139,6 @@ class BaseStorer(ABC):
         if type(self) is not type(other):
             raise TypeError("Can only add objects of the same class")
 
-        combined_particle_list: list = (
-            self.particle_list_ + other.particle_list_
-        )
-
         # Ensure num_output_per_event_ is not None
         if self.num_output_per_event_ is None:
             self.num_output_per_event_ = np.empty((0, 2), dtype=int)
@@ -153,21 +149,31 @@ class BaseStorer(ABC):
         if other.num_events_ is None:
             other.num_events_ = 0
 
+        # A storer without events (e.g. all of them removed by the filters of
+        # the constructor) holds the placeholder [[]] and an empty counts
+        # array of any shape: it contributes nothing to the sum
+        self_list, self_counts = self.particle_list_, self.num_output_per_event_
+        if self.num_events_ == 0:
+            self_list, self_counts = [], np.empty((0, 2), dtype=int)
+        other_list, other_counts = (
+            other.particle_list_,
+            other.num_output_per_event_,
+        )
+        if other.num_events_ == 0:
+            other_list, other_counts = [], np.empty((0, 2), dtype=int)
+
+        combined_particle_list: list = self_list + other_list
+        if combined_particle_list == []:
+            combined_particle_list = [[]]
+
         combined_num_output_per_event: np.ndarray = np.concatenate(
-            (self.num_output_per_event_, other.num_output_per_event_)
+            (self_counts, other_counts)
         )
 
         # Adjust event_number for the parts that originally belonged to other:
         # they continue after the last event number of self
-        if (
-            len(self.num_output_per_event_) > 0
-            and len(other.num_output_per_event_) > 0
-        ):
-            shift = (
-                self.num_output_per_event_[-1, 0]
-                + 1
-                - other.num_output_per_event_[0, 0]
-            )
+        if len(self_counts) > 0 and len(other_counts) > 0:
+            shift = self_counts[-1, 0] + 1 - other_counts[0, 0]
             combined_num_output_per_event[self.num_events_ :, 0] += shift
 
         combined_storer: BaseStorer = self.__class__.__new__(self.__class__)
